@@ -1,13 +1,7 @@
 // Engine B: the operations caller threads execute — const members on shared immutable strings/buffers and
 // arbitrary operations on thread-private objects.  This TU is compiled with -fsanitize=thread (ABI only) and
 // -fsanitize-coverage=trace-pc, so every memory access made here and in the inlined library code is an event.
-#include "simb.h"
-
-#include <string_theory/string>
-#include <string_theory/string_stream>
-#include <string_theory/format>
-#include <string_theory/codecs>
-#include <string_theory/utf_conversion>
+#include "pool.h"
 
 #include <complex>
 #include <stdexcept>
@@ -16,34 +10,22 @@ namespace B {
 
 using simrt::Hash;
 
-struct Pool {
-    std::vector<ST::string> strs;
-    std::vector<ST::char_buffer> b8;
-    std::vector<ST::utf16_buffer> b16;
-    std::vector<ST::utf32_buffer> b32;
-    std::vector<ST::wchar_buffer> bw;
-    std::vector<ST::string> hex, b64, nums;
-};
-struct Priv {                       // thread-private objects that persist over the thread's program
-    ST::string acc;
-    ST::string_stream ss;
-    ST::char_buffer buf;
-    std::vector<ST::string> vec;
-};
-
 static const char *const KIND_NAMES[] = {
     "find", "find_last", "contains_starts_ends", "compare", "relops_hash", "substr", "trim", "before_after", "case", "replace",
     "split", "tokenize", "to_utf16", "to_utf32", "to_wchar", "to_latin_1", "to_utf8_copy", "to_std", "to_num", "plus",
     "plus_char", "format_ints", "format_double", "format_strings", "format_latin_1", "hex_encode", "base64_encode", "hex_decode", "base64_decode", "copy_construct",
     "iterate_at", "buf_compare", "buf16_to_string", "buf32_to_string", "bufw_to_string", "free_utf8_to_utf16", "free_utf16_to_utf8", "free_latin1",
     "priv_stream", "priv_stream_nums", "priv_from_num", "priv_append", "priv_assign", "priv_set_wide", "priv_buffer", "priv_vector", "priv_fill", "priv_literals",
-    "find_last_bounded", "format_complex", "decode_into_buffer", "split_join", "decode_invalid", "invalid_text", "bad_format", "out_of_range"};
+    "find_last_bounded", "format_complex", "decode_into_buffer", "split_join", "decode_invalid", "invalid_text", "bad_format", "out_of_range",
+    // ops2.cpp: the remaining overloads of the public API (every definition site of the headers is entered by some kind; tools/coverage.py)
+    "ctor_overloads", "set_overloads", "assign_overloads", "from_overloads", "accessors", "from_num_overloads", "to_num_overloads", "compare_overloads",
+    "find_overloads", "edge_overloads", "replace_overloads", "split_overloads", "plus_overloads", "plus_assign_overloads", "stream_overloads",
+    "stream_move_erase", "free_conv_wchar", "free_conv_latin1", "free_conv_char8", "format_chars", "format_std_strings", "format_views_ints",
+    "iostream_narrow", "iostream_wide", "stdio_memstream", "buffer_overloads", "custom_writer", "validation_modes", "wide_buffers"};
 const int NKINDS = sizeof KIND_NAMES / sizeof KIND_NAMES[0];
 const char *bop_name(int k) { return (k >= 0 && k < NKINDS) ? KIND_NAMES[k] : "?"; }
 int bop_count() { return NKINDS; }
 
-static void hs(Hash &h, const ST::string &s) { h.u64(s.size()); h.bytes(s.c_str(), s.size()); }
-template <class T> static void hb(Hash &h, const ST::buffer<T> &b) { h.u64(b.size()); h.bytes(b.data(), b.size() * sizeof(T)); }
 
 static uint32_t draw_cp(simrt::Rng &r, unsigned mix) {
     if (mix == 0 || r.below(100) < (mix == 1 ? 70u : 35u)) return 0x20 + r.below(0x5F);
@@ -179,7 +161,8 @@ uint64_t do_op(const void *pool_, void *priv_, const BOp &op) {
                    try { h.u8((uint8_t)P.b8[op.a % P.b8.size()].at(1000 + op.c % 7)); } catch (const std::out_of_range &e) { h.str(e.what()); }
                    try { hs(h, ST::hex_encode(nullptr, 4)); } catch (const std::invalid_argument &e) { h.str(e.what()); }
                    break; }
-        default: { auto v = s.split(','); ST::string_stream j; for (size_t i = 0; i < v.size(); i++) { if (i) j << ','; j << v[i]; } hs(h, j.to_string()); h.u8(j.to_string() == s); break; }
+        default: if (op.kind >= 56) { do_op2(P, V, op, h); break; }
+                 { auto v = s.split(','); ST::string_stream j; for (size_t i = 0; i < v.size(); i++) { if (i) j << ','; j << v[i]; } hs(h, j.to_string()); h.u8(j.to_string() == s); break; }
         }
     } catch (const ST::unicode_error &) { h.str("unicode_error"); }
     catch (const ST::codec_error &) { h.str("codec_error"); }
